@@ -45,41 +45,56 @@ def trace_check(prop, tier, seed, scenarios, mcs, level_note_extra=None, run_tim
     import scenlib as _L
     if pairwise and max_steps is None:
         scenarios = list(scenarios) + (_L.pairwise_cases(seed) if tier == "thorough" else _L.pairwise_cases(seed, part=int(prop[1:]), parts=8))
-    docs = C.run_traced(scenarios, level=trace_level, timeout=run_timeout, max_steps=max_steps)
-    herr = [d for d in docs if d["outcome"]["status"] == "harness_error"]
-    if herr:
-        raise RuntimeError("harness error while tracing: " + json.dumps(herr[0]["outcome"])[:1500])
-    judged = [d for d in docs if d["cfg"] is not None]
-    results, tstats = tlc.validate_traces(judged)
+    scenarios = list(scenarios)
+    # the runs are traced, validated and judged in chunks (a thorough tier of several hundred multi-season traces does not fit in memory at once)
     V = C.Verdicts(prop)
-    # runs whose configured initial water content lies outside [air-dry, saturation] (e.g. a property value resolved in one layer and
-    # interpolated into another) violate the properties' precondition: they are not judged, only counted
-    outside = [i for i, r in enumerate(results) if any(v[1] == "Init.bounds" and v[2] == "thRange" for v in r)]
-    keep = [i for i in range(len(judged)) if i not in set(outside)]
-    n_outside = len(outside)
-    judged = [judged[i] for i in keep]
-    results = [results[i] for i in keep]
-    V.add_trace_results(judged, results)
-    # runs that were rejected at construction / initialisation carry no cfg: they are judged by C16, not here,
-    # but must not silently shrink the evidence
-    rejected = [d for d in docs if d["cfg"] is None]
-    # a run that does not come back within the wall-clock limit is a non-termination verdict (C07 "the run always terminates", C16)
-    if prop in ("C07", "C16"):
-        for d in docs:
-            if d["outcome"]["status"] == "timeout":
-                V.add("nontermination", d.get("scenario"), d["outcome"])
-    if extra_judge:
-        extra_judge(V, docs)
+    CH = 64
+    n_docs = n_judged = n_outside = n_rejected = events = days = 0
+    ids = set()
+    samples = []
+    tstats = {"states": 0, "jvms": 0, "wall_s": 0.0}
+    for c0 in range(0, len(scenarios), CH):
+        docs = C.run_traced(scenarios[c0:c0 + CH], level=trace_level, timeout=run_timeout, max_steps=max_steps)
+        herr = [d for d in docs if d["outcome"]["status"] == "harness_error"]
+        if herr:
+            raise RuntimeError("harness error while tracing: " + json.dumps(herr[0]["outcome"])[:1500])
+        judged = [d for d in docs if d["cfg"] is not None]
+        results, ts = tlc.validate_traces(judged)
+        tstats = {"states": tstats["states"] + ts["states"], "jvms": max(tstats["jvms"], ts["jvms"]), "wall_s": round(tstats["wall_s"] + ts["wall_s"], 2)}
+        # runs whose configured initial water content lies outside [air-dry, saturation] (e.g. a property value resolved in one layer and
+        # interpolated into another) violate the properties' precondition: they are not judged, only counted
+        outside = {i for i, r in enumerate(results) if any(v[1] == "Init.bounds" and v[2] == "thRange" for v in r)}
+        n_outside += len(outside)
+        keep = [i for i in range(len(judged)) if i not in outside]
+        judged = [judged[i] for i in keep]
+        results = [results[i] for i in keep]
+        V.add_trace_results(judged, results)
+        # runs that were rejected at construction / initialisation carry no cfg: they are judged by C16, not here,
+        # but must not silently shrink the evidence
+        n_rejected += sum(1 for d in docs if d["cfg"] is None)
+        # a run that does not come back within the wall-clock limit is a non-termination verdict (C07 "the run always terminates", C16)
+        if prop in ("C07", "C16"):
+            for d in docs:
+                if d["outcome"]["status"] == "timeout":
+                    V.add("nontermination", d.get("scenario"), d["outcome"])
+        if extra_judge:
+            extra_judge(V, docs)
+        n_docs += len(docs)
+        n_judged += len(judged)
+        events += sum(len(d["events"]) for d in judged)
+        days += sum(1 for d in judged for e in d["events"] if e["e"] == "DayEnd")
+        ids |= {C.sc_id(d["scenario"]) for d in judged if (nontrivial(d) if nontrivial else True)}
+        if len(samples) < 6:
+            samples += [sample_of(d["scenario"]) for d in judged[:6 - len(samples)]]
+        del docs, judged, results
     rc = V.report()
-    events = sum(len(d["events"]) for d in judged)
-    days = sum(1 for d in judged for e in d["events"] if e["e"] == "DayEnd")
-    distinct = len({C.sc_id(d["scenario"]) for d in judged if (nontrivial(d) if nontrivial else True)})
+    distinct = len(ids)
     cov = {
         "states": max(1, mc["states"] + tstats["states"]),
         "transitions": max(1, mc["states"] + tstats["states"]),
-        "traces_validated_against_impl": len(judged),
-        "samples": [sample_of(d["scenario"]) for d in judged[:6]] or [sample_of(s) for s in scenarios[:3]],
-        "evaluations": len(docs),
+        "traces_validated_against_impl": n_judged,
+        "samples": samples or [sample_of(s) for s in scenarios[:3]],
+        "evaluations": n_docs,
         "distinct_nontrivial": distinct,
         "rule": "one evaluation = one simulated run of the real code, traced stage by stage and validated by TLC against "
                 "spec/Trace.tla; distinct = distinct scenario descriptions; non-trivial = run initialised and produced day events",
@@ -87,7 +102,7 @@ def trace_check(prop, tier, seed, scenarios, mcs, level_note_extra=None, run_tim
         "model_states_generated": mc["states"], "model_states_distinct": mc["distinct"],
         "trace_states": tstats["states"], "trace_events": events, "simulated_days": days,
         "trace_jvms": tstats["jvms"], "trace_validation_wall_s": tstats["wall_s"],
-        "runs_rejected_before_first_day": len(rejected), "runs_outside_precondition_initial_water": n_outside,
+        "runs_rejected_before_first_day": n_rejected, "runs_outside_precondition_initial_water": n_outside,
         "fidelity_mismatches": V.fidelity,
         "violations_of_other_properties_seen": V.other_props,
         "known_findings_hit": V.known_hits,
